@@ -432,6 +432,9 @@ def run(prog, rep):
     import_verdicts(prog, rep, "C05", ("RET-1",), "RET-1",
                     "the importer hands every value (a native int, float, date ... as rdflib delivers it) to the Property constructor, which re-types "
                     "it with the dtype converters: they must return what they are given in normal form, exactly")
+    import_verdicts(prog, rep, "C02", ("LOOP-1",), "DICT-I",
+                    "RDFReader builds dictionaries and hands them to DictReader().to_odml: what one Section's dictionary lacks (no 'sections' / "
+                    "'properties' key for a node without such links) must not be filled in from the sibling parsed before it")
     import_verdicts(prog, rep, "C01", ("ENUM-1",), "ENUM-1",
                     "the exporter writes the dtype as Literal(prop.dtype), i.e. through str(): a DType member has to print as its name, or the graph "
                     "carries `DType.url` and the import drops the dtype")
